@@ -72,6 +72,18 @@ func (p *Program) verifyFunc(fc *FuncContract) (u *Unit) {
 	x := p.newExec(fc.Key)
 	u.VC = x.vc
 	// mechanical (non-SMT) frame checks over the static call tree
+	if fc.NoGlobalWrites {
+		sites := p.globalWrites(fn)
+		goal := tTrue
+		if len(sites) > 0 {
+			goal = tFalse
+		}
+		x.vc.oblige(&Obligation{Name: fc.Key + "#globals.scan", Kind: "frame", Func: fc.Key, Guard: tTrue, Goal: goal,
+			Src: "no package-level variable is written in the call tree (SSA scan): " + strings.Join(sites, "; ")})
+		if !fc.HasSpec() && len(fc.Loops) == 0 && len(fc.ReadsOnly) == 0 && !fc.NoWrites {
+			return u // a scan-only contract: the body is not executed symbolically
+		}
+	}
 	if len(fc.ReadsOnly) > 0 || fc.NoWrites {
 		var errs []string
 		for prm, allowed := range fc.ReadsOnly {
